@@ -519,6 +519,45 @@ func TestVerifC03(t *testing.T) {
 		}
 	})
 
+	// the caller's BUFFERS are reused: one set of five 32-byte arrays is overwritten in place with case after case
+	// (valid under A, then valid under B, then A's signature under B's key ...). Whatever the library remembered of
+	// an earlier call by reference now describes other bytes.
+	{
+		var bx, by, be, br, bs [32]byte
+		order := rng.Perm(len(cases))
+		nrun := 0
+		lastValid := -1
+		for _, ci := range order {
+			c := cases[ci]
+			if len(c.px) != 32 || len(c.py) != 32 || len(c.e) != 32 || len(c.r) != 32 || len(c.s) != 32 {
+				continue
+			}
+			if nrun >= hk.N(1500, 12000) {
+				break
+			}
+			run := func(c *c03case, label string) {
+				copy(bx[:], c.px)
+				copy(by[:], c.py)
+				copy(be[:], c.e)
+				copy(br[:], c.r)
+				copy(bs[:], c.s)
+				c03run(rep, &c03case{px: bx[:], py: by[:], e: be[:], r: br[:], s: bs[:], label: "reused-buffers:" + label})
+				nrun++
+			}
+			want := ref.SM2Verify(c.px, c.py, c.e, c.r, c.s)
+			run(c, fmt.Sprintf("model=%v", want))
+			if want {
+				if lastValid >= 0 && nrun%3 == 0 {
+					// the previous valid signature presented under THIS key, then this one again
+					pv := cases[lastValid]
+					run(&c03case{px: c.px, py: c.py, e: pv.e, r: pv.r, s: pv.s}, "earlier-signature-under-this-key")
+					run(c, "valid-again")
+				}
+				lastValid = ci
+			}
+		}
+	}
+
 	// sequential HISTORIES: one goroutine verifies a long sequence of signatures under a handful of
 	// related keys (P, -P, [2]P, Q, -Q: same x with the other y, small multiples), valid and invalid,
 	// in an order that revisits keys; every answer is compared with the model (state kept from one
